@@ -104,7 +104,7 @@ def _key_for(item, built, rec):
     params = optplan.nondefault_params(small, diff_ops)
     tag = optplan.root_cause_tag(small, comp, dsig)
     if tag:
-        return f"C03|not-equivalent|fold|{tag}", small, v2
+        return f"C03|not-equivalent|{comp if str(comp).startswith('rule:') else 'fold'}|{tag}", small, v2
     key = f"C03|not-equivalent|{comp if api in ('optimize', 'optimize_ir') or comp != 'pipeline' else api}|{dsig}"
     if params:
         key += "|" + ",".join(params)
@@ -198,18 +198,33 @@ def on_crash(item, res):
     return _crash_triage(item)
 
 
-def _crash_triage(item):
+def _crash_triage(item, module="vf.props.c03"):
+    """Worker death on this item (native crash, or the watchdog on a case stuck / starved for > _WATCHDOG_S).
+    1. re-run the whole case alone in a fresh process with a generous timeout: if it completes, the death was not
+       reproducible in isolation (machine load, memory pressure) -> skipped and counted;
+    2. otherwise run only the ORIGINAL: if that dies too the runtime cannot run the original -> skipped and counted;
+    3. otherwise the crash belongs to the optimizer or the optimized model -> violation."""
     import json
+    import os
     import subprocess
     import sys
+    root = os.path.dirname(os.path.dirname(os.path.dirname(os.path.abspath(__file__))))
+    whole = (f"import json,sys,importlib\nm=importlib.import_module('{module}')\nm._WATCHDOG_S=100000\n"
+             "r=m._execute(json.loads(sys.argv[1]))\nprint('WHOLE-OK')\n")
+    try:
+        p = subprocess.run([sys.executable, "-W", "ignore", "-c", whole, json.dumps(item)], capture_output=True, text=True,
+                           timeout=900, cwd=root)
+        if "WHOLE-OK" in p.stdout:
+            return "not-reproducible-in-isolation"
+    except subprocess.TimeoutExpired:
+        pass
     code = ("import json,sys\nfrom vf import optplan, optrun, mz\nitem=json.loads(sys.argv[1])\n"
             "b,why,_=optplan.build_item(item)\n"
             "o=optrun.Orig(b.model)\n"
             "[o.admit(b.feeds(k, dict(mz.BIND_DEFAULT))) for k in range(mz.N_VALUATIONS)]\nprint('ORIG-OK')\n")
     try:
         p = subprocess.run([sys.executable, "-W", "ignore", "-c", code, json.dumps(item)], capture_output=True, text=True,
-                           timeout=120, cwd=__import__("os").path.dirname(__import__("os").path.dirname(
-                               __import__("os").path.dirname(__import__("os").path.abspath(__file__)))))
+                           timeout=600, cwd=root)
     except subprocess.TimeoutExpired:
         return "original-hangs"
     if "ORIG-OK" in p.stdout:
